@@ -37,7 +37,8 @@ def check_one(s):
     if '\x00' in s or '\x7f' in s:
         return None
     l0, soup, _ = common.impl_parse(s, 0)
-    if soup is None or oracles.has_bare_args(soup) or oracles.hidden_bare(s) or oracles.size_prefix_detached(s):
+    if soup is None or oracles.has_bare_args(soup) or oracles.hidden_bare(s) or oracles.size_prefix_detached(s) \
+            or oracles.name_not_in_source(s, soup):
         return None
     t = str(soup)
     l1, soup1, exc = common.impl_parse(t, 0)
